@@ -1,6 +1,7 @@
 package main
 
 import (
+	"time"
 	"fmt"
 	"math/rand"
 	"runtime"
@@ -20,6 +21,9 @@ import (
 type shardComp struct{}
 
 func init() { register("shard", shardComp{}) }
+
+// OpTimeout: single operations of this component are whole runs / scans
+func (shardComp) OpTimeout() time.Duration { return 15 * time.Minute }
 
 func (shardComp) Parallel() bool { return false }
 
